@@ -49,11 +49,22 @@ func newC03StreamTap(t0 time.Time, closingC2S bool, stall bool) *c03StreamTap {
 	return t
 }
 
-// closeCalled starts the countdown: the stall ends `d` after Close() was called.
+// closeCalled starts the countdown. The stall must outlast the bounded wait of closeWithError, which is
+// not a duration but 1000 iterations of time.Sleep(time.Millisecond) — on a loaded machine that takes
+// several seconds. So the stall is calibrated the same way: it ends `d` after a loop of 1500 such
+// sleeps, started now, has finished.
 func (t *c03StreamTap) closeCalled(d time.Duration) {
-	if t.stall {
-		t.releaseAt.Store(time.Now().Add(d).UnixNano())
+	if !t.stall {
+		return
 	}
+	t.releaseAt.Store(time.Now().Add(time.Hour).UnixNano())
+	go func() {
+		for i := 0; i < 1500; i++ {
+			time.Sleep(time.Millisecond)
+		}
+		time.Sleep(d)
+		t.releaseAt.Store(time.Now().UnixNano())
+	}()
 }
 
 func (t *c03StreamTap) filter(connID int, clientToServer bool, offset int64, b []byte) []byte {
